@@ -490,6 +490,11 @@ func factsC10(r *Repo) []Fact {
 	// Lambda nodes: the runnable compileIfNeeded stores the node's nodeInfo in belongs to the
 	// graph node alone, not to every node made from the same *Lambda value
 	out = append(out, c10LambdaNodeOwnsRunnable(cp))
+
+	// the shipped components that fire their own callbacks (DefaultChatTemplate, the router and
+	// multi-query retrievers, ConcurrentRetrieveWithCallback): every error / panic path reports
+	// the unit's end (c10_builtin.go)
+	out = append(out, c10BuiltinFacts(r)...)
 	return out
 }
 
